@@ -40,8 +40,8 @@ SHARD = 120
 RULE = ("one edit (replace_child by instance / class / setattr / label, copy_io with both fail-hard flags, "
         "Channel.copy_connections, set_run_signals_to_dag_execution) on a Workflow or Macro of 2-4 function-node "
         "children of 10 kinds (typed int/str/int|str/untyped, extra / missing channels) with free, foreign and "
-        "already-owned nodes, ordered data and run/ran connections (several per channel), values, macro value "
-        "links, IO maps, starting nodes; candidates: compatible, extra channels, missing a connected channel, "
+        "already-owned nodes, ordered data and run/ran connections (several per channel, now and then a node "
+        "connected to itself), values, macro value links, IO maps, starting nodes; candidates: compatible, extra channels, missing a connected channel, "
         "missing a value-linked channel, wrongly hinted towards a neighbour / towards the macro IO, ill-valued "
         "towards the macro IO, owned, connected, a class; x an injected failure of the k-th connection / value / "
         "link transfer for every k up to the number of transfers; non-trivial = the edit failed, or succeeded on "
@@ -54,7 +54,8 @@ ASSUMPTIONS = ["children and candidates are function nodes (a macro / workflow i
                "no executors, nothing running (data_input_locked is False); hint tags int / str / int|str; values "
                "are ints and strings",
                "a failed Workflow._rebuild_data_io ends in RecursionError at a depth-dependent graph: only the "
-               "outcome is compared for it",
+               "outcome is compared for it; IO maps are not combined with injected failures (a failure firing somewhere "
+               "inside the swap-back recursion is not modelled)",
                "for a Workflow the inbound/outbound value-link scan of replace_child is empty (children of a "
                "workflow carry no value links in the explored graphs)"]
 
